@@ -13,7 +13,10 @@ Streams (model `Wpull.Request` vs the real code in the repo under test):
            processor) x cookie option sets {default, --save-cookies, --keep-session-cookies, --load-cookies, --no-cookies} x
            twin-host redirect chains (cookie provenance), and redirects with hostile Location values to a page with links
            (the Referer of every child request must be a clean normalised URL), and start URLs with user-info x 307/308 to
-           another origin x 401 challenges there (every Authorization value belongs to the origin it is sent to)
+           another origin x 401 challenges there (every Authorization value belongs to the origin it is sent to), and the
+           proxy dimension (--http-proxy, --proxy-user/--proxy-password, --proxy-exclude-hostnames; the in-memory network plays the
+           proxy: absolute-form GETs, CONNECT tunnels with a pass-through stand-in for TLS, several https origins, keep-alive):
+           a tunnel only carries requests of its CONNECT origin; Proxy-Authorization only ever goes to the proxy
 Direct oracle (independent of the model) on every real request head: one request line with exactly two SP,
 field lines, blank line, no bare CR/LF, target = path?query (absolute URL with a proxy), exactly one Host equal to
 host[:non-default port] of the hop URL and of the host actually connected to, credentials and cookies only
@@ -31,7 +34,8 @@ RULE = ('prep: grammar-generated URLs (schemes, user-info, IDN/IPv4-variant/IPv6
         'session: redirect scripts of length 0-8 over 301/302/303/307/308 x same/other host x http<->https x userinfo on '
         'first/later hop x Set-Cookie on any hop x 401 at any hop x relative/scheme-relative/missing/garbage Location x '
         'cookie jar on/off x global login on/off x GET/POST. non-trivial = URL parses and the case is distinct by canonical input')
-TRUSTED = ['URL parsing/joining (URLInfo.parse, urljoin) is a parameter: the components of each hop URL are taken from the real parse',
+TRUSTED = ['app stream through a proxy: Connection.start_tls is replaced by a pass-through (same byte stream) because the in-memory network has no TLS peer',
+           'URL parsing/joining (URLInfo.parse, urljoin) is a parameter: the components of each hop URL are taken from the real parse',
            'http.cookiejar: the jar\'s Cookie text per add_cookie_header call is logged from the real run and passed to the model',
            'harness/fakenet.py in-memory transports; every host name resolves to its own address']
 ASSUMPTIONS = ['canonical URL components (hostname, path, query, normalised user-info) contain no CR, LF, SP and are < U+0100 '
@@ -603,8 +607,15 @@ def check_app_case(ctx, case):
             extra += ['--no-cookies']
         if case.get('span_hosts'):
             extra += ['--span-hosts']       # otherwise SpanHostsFilter refuses the authentication retry on a redirect target
+        proxy = case.get('proxy')
+        if proxy:
+            extra += ['--http-proxy', 'proxy.test:3128']
+            if proxy.get('user'):
+                extra += ['--proxy-user', proxy['user'][0], '--proxy-password', proxy['user'][1]]
+            if proxy.get('exclude'):
+                extra += ['--proxy-exclude-hostnames', ','.join(proxy['exclude'])]
         res = rc.run_crawl(case['url'], case['replies'], 1, 10, extra_argv=extra, recursive=case.get('recursive', False),
-                           login=tuple(case['login']) if case.get('login') else None)
+                           login=tuple(case['login']) if case.get('login') else None, tls_passthrough=bool(proxy))
     finally:
         shutil.rmtree(tmp, ignore_errors=True)
     hops = res['named_hops']
@@ -634,7 +645,33 @@ def check_app_case(ctx, case):
             continue
         hvals = [v for n, v in fields if n.lower() == 'host']
         name = '[%s]' % host if ':' in host else host
-        if len(hvals) != 1 or hvals[0] not in (name, '%s:%d' % (name, port)):
+        tunnel = res['tunnels'][k] if k < len(res['tunnels']) else None
+        if case.get('proxy'):
+            # the in-memory network plays the proxy: absolute-form requests, CONNECT tunnels, and excluded hosts reached directly
+            excluded = case['proxy'].get('exclude') or []
+            tgt = target.decode('latin-1')
+            if len(hvals) != 1:
+                ctx.fail('host-count', where, case, 'request %d: Host fields %r' % (k, hvals))
+            elif tunnel is not None:
+                want = hvals[0] if (hvals[0].rsplit(':', 1)[-1].isdigit() and not hvals[0].endswith(']')) else hvals[0] + ':443'
+                if (host, port) != ('proxy.test', 3128) or want != tunnel or not tgt.startswith('/'):
+                    ctx.fail('wrong-tunnel', 'HTTPProxyConnectionPool.acquire_proxy', case,
+                             'request %d for %s (%s; Cookie/Authorization: %r) was written into the CONNECT tunnel to %s'
+                             % (k, hvals[0], head.split(b'\r\n')[0].decode('latin-1'),
+                                [v for n, v in fields if n.lower() in ('cookie', 'authorization')], tunnel))
+            elif (host, port) == ('proxy.test', 3128):
+                netloc = urllib.parse.urlsplit(tgt).netloc.rpartition('@')[2]
+                if not tgt.startswith('http://') or netloc != hvals[0]:
+                    ctx.fail('target-mismatch', where, case, 'request %d to the proxy: target %r, Host %r' % (k, tgt, hvals[0]))
+            else:
+                if host not in excluded or hvals[0] not in (name, '%s:%d' % (name, port)) or not tgt.startswith('/'):
+                    ctx.fail('host-mismatch', where, case, 'request %d went directly to %s:%d (Host %r, target %r); excluded hosts %r'
+                             % (k, host, port, hvals, tgt, excluded))
+            if (tunnel is not None or (host, port) != ('proxy.test', 3128)) and any(n.lower() == 'proxy-authorization' for n, _ in fields):
+                ctx.fail('proxy-credentials-to-origin', 'Session.start', case,
+                         'request %d to origin %s (%s) carries Proxy-Authorization: the credentials of the proxy were sent to an origin server (head %r)'
+                         % (k, hvals, 'inside the tunnel to %s' % tunnel if tunnel else 'directly', head[:250]))
+        elif len(hvals) != 1 or hvals[0] not in (name, '%s:%d' % (name, port)):
             ctx.fail('host-mismatch', where, case, 'request %d sent to %s:%d carries Host %r' % (k, host, port, hvals))
         referer_clean(ctx, case, fields, 'ItemSession.add_child_url' if case['kind'] == 'referer' else where, k)
         for n, v in fields:
@@ -676,7 +713,7 @@ def check_app_case(ctx, case):
     ctx.sample({'stream': 'app', 'kind': case['kind'], 'cookies': opt, 'url': case['url'], 'requests': len(hops)})
 
 
-def gen_app_cases(rng, n_cookie, n_referer, n_auth=0):
+def gen_app_cases(rng, n_cookie, n_referer, n_auth=0, n_proxy=0):
     out = []
     for i in range(n_cookie):
         if i < 2 * len(APP_COOKIE_OPTIONS):
@@ -710,6 +747,31 @@ def gen_app_cases(rng, n_cookie, n_referer, n_auth=0):
         out.append({'stream': 'app', 'kind': 'auth', 'cookies': rng.choice(['default', 'no-cookies']), 'hosts': [src, dst],
                     'url': 'http://u%d:p%d@%s/x' % (u, u, src), 'replies': replies,
                     'login': None if i % 4 != 3 else ('GU%d' % u, 'GP%d' % u), 'span_hosts': i % 5 != 4})
+    for i in range(n_proxy):
+        u = rng.randrange(1000)
+        puser = None if i % 3 == 2 else ('pu%d' % u, 'pp%d' % u)
+        code = lambda: rng.choice([301, 302, 303, 307, 308])
+        if i % 2 == 0:
+            # several https origins behind the proxy, keep-alive, bouncing between them: every tunnel must only ever
+            # carry requests (and cookies) of the origin named in its CONNECT
+            o1, o2 = rng.choice([('alpha.example', 'beta.example'), ('alpha.example', 'alpha.example:8443'), ('a.example', 'sub.a.example')])
+            replies = [{'status': code(), 'location': ('https://%s/b1' % o2).encode(), 'cookies': [b'sidA=v%d' % u], 'mode': 'resp'},
+                       {'status': code(), 'location': ('https://%s/a2' % o1).encode(), 'cookies': [b'sidB=v%d' % u], 'mode': 'resp'},
+                       {'status': code(), 'location': ('https://%s/b2' % o2).encode(), 'cookies': [], 'mode': 'resp'},
+                       {'status': code(), 'location': ('http://%s/plain' % o1.split(':')[0]).encode(), 'cookies': [], 'mode': 'resp'},
+                       {'status': 200, 'mode': 'resp'}]
+            out.append({'stream': 'app', 'kind': 'proxy', 'cookies': 'default', 'hosts': [o1, o2], 'url': 'https://%s/a1' % o1,
+                        'replies': replies, 'proxy': {'user': puser}})
+        else:
+            # a proxied plain-http URL replayed (307/308) to an https origin (tunnel) or to a host excluded from the proxy
+            first = [307, 308][(i // 2) % 2] if i < 8 else code()
+            dst = rng.choice([b'https://b.example/y', b'http://direct.test/z', b'https://b.example:8443/y'])
+            replies = [{'status': first, 'location': dst, 'cookies': [], 'mode': 'resp'},
+                       {'status': rng.choice([307, 308]), 'location': rng.choice([b'http://direct.test/w', b'https://c.test/v', b'http://a.example/back']),
+                        'cookies': [], 'mode': 'resp'},
+                       {'status': 200, 'mode': 'resp'}]
+            out.append({'stream': 'app', 'kind': 'proxy', 'cookies': 'default', 'hosts': ['a.example'], 'url': 'http://a.example/x',
+                        'replies': replies, 'proxy': {'user': puser, 'exclude': ['direct.test']}})
     for i in range(n_referer):
         loc = HOSTILE_LOCATIONS[i % len(HOSTILE_LOCATIONS)] if i < len(HOSTILE_LOCATIONS) else rng.choice(HOSTILE_LOCATIONS)
         body = b'<html><body><a href="http://a.example/child1">c</a> <a href="http://a.example/child2?x=1">d</a></body></html>'
@@ -786,7 +848,7 @@ def run(ctx):
     for _ in range(ctx.scale(600, 18000)):
         check_session_case(ctx, gen_chain_case(srng))
     arng = ctx.subrng('app')
-    for case in gen_app_cases(arng, ctx.scale(24, 400), ctx.scale(12, 200), ctx.scale(16, 300)):
+    for case in gen_app_cases(arng, ctx.scale(24, 400), ctx.scale(12, 200), ctx.scale(16, 300), ctx.scale(16, 300)):
         check_app_case(ctx, case)
     prng = ctx.subrng('session-proxy')
     for _ in range(ctx.scale(250, 6000)):
